@@ -80,20 +80,20 @@ theorem hash_index_equals_reference_after_any_history (U : Bytes → Tx) (cfg : 
 
 /-! ### tie by translation: the source's own leaf logic (regenerated into SV/Generated/Funcs.lean on every run) IS the model's -/
 theorem source_sender_limit_test_is_the_models (cfg : Config) (l : List Tx) :
-    senderExceeded cfg l = Gen.senderExceeded cfg.numBytesPerSender cfg.countPerSender (listBytes l) l.length :=
+    senderExceeded cfg l = Gen.senderExceeded (listForSender_constraints_maxNumBytes := cfg.numBytesPerSender) (listForSender_constraints_maxNumTxs := cfg.countPerSender) (listForSender_totalBytes_Get := (listBytes l)) (listForSender_countTx := l.length) :=
   GenProofs.senderExceeded_eq cfg l
 
 /-- one iteration of the source's `findInsertionPlace` (translated: 0 = go on towards the front, 1 = insert right after this
     element, 2 = already in the cache) is the decision the model's sorted insertion takes at that element -/
 theorem source_insertion_walk_is_the_models (t c : Tx) (rest : List Tx) :
     insertRev t (c :: rest) =
-      (if Gen.insertionStep t.nonce t.gasPrice c.nonce c.gasPrice c.hash t.hash = 1 then some (t :: c :: rest)
-       else if Gen.insertionStep t.nonce t.gasPrice c.nonce c.gasPrice c.hash t.hash = 2 then none
+      (if Gen.insertionStep (incomingTx_Tx_GetNonce := t.nonce) (incomingTx_Tx_GetGasPrice := t.gasPrice) (currentTx_Tx_GetNonce := c.nonce) (currentTx_Tx_GetGasPrice := c.gasPrice) (currentTx_TxHash := c.hash) (incomingTx_TxHash := t.hash) = 1 then some (t :: c :: rest)
+       else if Gen.insertionStep (incomingTx_Tx_GetNonce := t.nonce) (incomingTx_Tx_GetGasPrice := t.gasPrice) (currentTx_Tx_GetNonce := c.nonce) (currentTx_Tx_GetGasPrice := c.gasPrice) (currentTx_TxHash := c.hash) (incomingTx_TxHash := t.hash) = 2 then none
        else (insertRev t rest).map (c :: ·)) := GenProofs.insertRev_cons_eq_source t c rest
 /-- RemoveTxByHash's walk over the sender's list stops where the source's loop breaks (first nonce above the removed one) -/
 theorem source_lower_nonce_removal_is_the_models (n : Nat) (c : Tx) (rest : List Tx) :
     dropLowerOrEqual n (c :: rest) =
-      (if Gen.removeLowerStops c.nonce n = [true] then c :: rest else dropLowerOrEqual n rest) :=
+      (if Gen.removeLowerStops (txNonce := c.nonce) (targetNonce := n) = [true] then c :: rest else dropLowerOrEqual n rest) :=
   GenProofs.dropLowerOrEqual_cons_eq_source n c rest
 
 /-! ### Go's `container/list` is not assumed: the per-sender list code transcribed over a faithful model of the library
